@@ -370,7 +370,7 @@ def visit (sc : Scripts) (tm : Nat) : Nat → World → World
       let w := fireOne sc (setSlot w tm rest) cop
       match w.slots tm with
       | [] => w
-      | h :: _ => if h.delta == 0 then visit sc tm fuel w else w
+      | h :: _ => if Gen.C10.nextDue h.delta then visit sc tm fuel w else w
 
 /-- one second of call_out().  The position of `call_out_time++` relative to `tm = ...` and to the visit of the
     slot, and the slot expression, are recovered from the source (fix C10: the increment comes first). -/
@@ -384,7 +384,7 @@ def sweepSecond (sc : Scripts) (w : World) : World :=
     | h :: rest =>
       let h' := { h with delta := h.delta - 1 }
       let w := setSlot w tm (h' :: rest)
-      if h'.delta == 0 then visit sc tm ((w.slots tm).length) w else w
+      if Gen.C10.headDue h.delta then visit sc tm ((w.slots tm).length) w else w
   if Gen.C10.sweepIncBeforeVisit then w else { w with cot := w.cot + 1 }
 
 def sweepLoop (sc : Scripts) : Nat → World → World
